@@ -7,6 +7,7 @@ pub mod c15;
 pub mod c30;
 pub mod c31;
 pub mod c40;
+pub mod c41;
 
 pub type RunFn = fn(&mut Report);
 
@@ -18,6 +19,7 @@ pub const REGISTRY: &[(&str, RunFn)] = &[
     ("C30", c30::run),
     ("C31", c31::run),
     ("C40", c40::run),
+    ("C41", c41::run),
 ];
 
 pub fn lookup(id: &str) -> Option<(&'static str, RunFn)> {
